@@ -75,7 +75,7 @@ theorem rebuiltOrSame_attrs (h0 h1 : Heap) (st : StepImp chkT h0 h1) (a : Addr) 
     ∃ tu, (rebuiltOrSame h1 a t fs).1.readType (rebuiltOrSame h1 a t fs).2 = some tu ∧ TAttr t tu := by
   simp only [rebuiltOrSame]
   split
-  · exact ⟨_, readType_alloc_new _ _, ⟨rfl, rfl, rfl, rfl, rfl, rfl, rfl⟩⟩
+  · exact ⟨_, readType_alloc_new _ _, ⟨rfl, rfl, rfl, rfl, rfl, rfl, rfl, rfl⟩⟩
   · exact readType_keep_attrs st a t ht
 
 theorem compositeRest_attrs (v : Visitor) (reg : List (String × Addr)) (a : Addr) (h : Heap) (t : TypeO) (ht : h.readType a = some t) :
@@ -92,7 +92,7 @@ theorem compositeRest_attrs (v : Visitor) (reg : List (String × Addr)) (a : Add
       simp only [hobj, if_true, hru] at e ⊢
       simp only [Option.some.injEq] at e
       subst e
-      exact ⟨_, readType_write_self _ _ _ (readType_lt' hru), hau.trans ⟨rfl, rfl, rfl, rfl, rfl, rfl, rfl⟩⟩
+      exact ⟨_, readType_write_self _ _ _ (readType_lt' hru), hau.trans ⟨rfl, rfl, rfl, rfl, rfl, rfl, rfl, rfl⟩⟩
     · rename_i hobj
       simp only [hobj, Option.some.injEq, Bool.false_eq_true, if_false] at e ⊢
       subst e
@@ -114,7 +114,7 @@ theorem onComposite_attrs (v : Visitor) (reg : List (String × Addr)) (h : Heap)
         obtain ⟨t', h1, h2⟩ := compositeRest_attrs (.vis p) reg a _
           { t with fields := t.fields.filter fun fa => match fieldName h fa with | some fnm => p.fieldVis t.name fnm | none => true }
           (readType_write_self h a _ (readType_lt' ht)) a' e
-        exact ⟨t', h1, TAttr.trans ⟨rfl, rfl, rfl, rfl, rfl, rfl, rfl⟩ h2⟩
+        exact ⟨t', h1, TAttr.trans ⟨rfl, rfl, rfl, rfl, rfl, rfl, rfl, rfl⟩ h2⟩
       · exact compositeRest_attrs _ reg a h t ht
   | heal => exact compositeRest_attrs _ reg a h t ht
   | camel r => exact compositeRest_attrs _ reg a h t ht
@@ -150,7 +150,7 @@ theorem onInputObject_attrs (v : Visitor) (reg : List (String × Addr)) (h : Hea
       obtain ⟨t', h1, h2⟩ := inputRest_attrs (.vis p) reg a t.name _
         { t with fields := t.fields.filter fun fa => match argName h fa with | some fnm => p.inputVis t.name fnm | none => true }
         (readType_write_self h a _ (readType_lt' ht)) a' e
-      exact ⟨t', h1, TAttr.trans ⟨rfl, rfl, rfl, rfl, rfl, rfl, rfl⟩ h2⟩
+      exact ⟨t', h1, TAttr.trans ⟨rfl, rfl, rfl, rfl, rfl, rfl, rfl, rfl⟩ h2⟩
     · exact inputRest_attrs _ reg a t.name h t ht
   | heal => exact inputRest_attrs _ reg a t.name h t ht
   | camel r => exact inputRest_attrs _ reg a t.name h t ht
@@ -169,7 +169,7 @@ theorem onType_attrs (v : Visitor) (reg : List (String × Addr)) (h : Heap) (a :
     cases v with
     | heal =>
       simp only [Option.some.injEq] at e ⊢; subst e
-      exact ⟨_, readType_write_self h a _ (readType_lt' ht), ⟨rfl, rfl, rfl, rfl, rfl, rfl, rfl⟩⟩
+      exact ⟨_, readType_write_self h a _ (readType_lt' ht), ⟨rfl, rfl, rfl, rfl, rfl, rfl, rfl, rfl⟩⟩
     | vis p =>
       simp only at e ⊢
       split at e
